@@ -1,6 +1,6 @@
 (* C01 — refutations (where the faithful model of the Go code violates the reference evaluator: the known findings,
    each outside the guard) and non-vacuity examples.  The general proofs are in Sim.v, Ext.v and Laws.v. *)
-From C01 Require Export Model Spec Sim Ext Laws.
+From C01 Require Export Model Spec Sim Ext Laws Wf.
 Open Scope string_scope.
 
 Definition I (z : Z) : expr := EConst (DInt z).
